@@ -8,6 +8,7 @@
 package mgmt
 
 import (
+	"math"
 	"strconv"
 	"time"
 
@@ -109,6 +110,13 @@ func (r *RIBModule) register(interest *spec.Interest, pitToken []byte, inFace ui
 	}
 
 	expirationPeriod := (*time.Duration)(nil)
+	if params.ExpirationPeriod != nil && *params.ExpirationPeriod > uint64(math.MaxInt64/time.Millisecond) {
+		// More milliseconds than a time.Duration can hold: the stored period would be a different one
+		core.LogWarn(r, "ExpirationPeriod ", *params.ExpirationPeriod, " is out of range in ", interest.Name())
+		response = makeControlResponse(400, "ControlParameters is incorrect", nil)
+		r.manager.sendResponse(response, interest, pitToken, inFace)
+		return
+	}
 	if params.ExpirationPeriod != nil {
 		expirationPeriod = new(time.Duration)
 		*expirationPeriod = time.Duration(*params.ExpirationPeriod) * time.Millisecond
